@@ -15,13 +15,16 @@ _BENIGN = {}
 
 def expected_form_id(wb):
     """the form id the author set on the settings sheet (form_id / id_string), or None when it is left to the fallbacks"""
-    found = set()
+    found, headers = set(), 0
     for sh in (wb or {}).get("sheets", []):
         if sh["name"].strip().lower() == "settings" and sh["rows"]:
             for h, v in zip(sh["header"], sh["rows"][0]):
-                if isinstance(h, str) and h.strip().lower() in ("form_id", "id_string") and isinstance(v, str) and v.strip():
-                    found.add(v.strip())
-    return found.pop() if len(found) == 1 else None      # (both aliases with different values: which one wins is not C01's subject)
+                if isinstance(h, str) and h.strip().lower() in ("form_id", "id_string", "set_form_id"):
+                    headers += 1
+                    if isinstance(v, str) and v.strip():
+                        found.add(v.strip())
+    # (both aliases present, even with one cell empty: which one wins is not C01's subject)
+    return found.pop() if len(found) == 1 and headers == 1 else None
 
 
 def facts(xform, form_id=None):
